@@ -11,7 +11,8 @@ ID = 'C19'
 LEVEL = 'fault_enumeration'
 NONTRIVIAL_FLOOR = 0.2
 RULE = ('Hypothesis-generated write histories (one list value: up to 400 writes over 1..200 target files, gzip or plain '
-        'mode, maxHandles 1..40, pruneEvery 1..50, explicit close() calls in between) together with a fault plan: '
+        'mode, maxHandles 1..40, pruneEvery 1..50, explicit close() calls in between; optionally files of an earlier run '
+        'already present at up to 4 target paths, and the output directory spelled with // , /./ or /sub/../) together with a fault plan: '
         'descriptor limit k>=1 (EMFILE whenever k handles are live), transient failure of the n-th open call, permanent '
         'failure of one path. open/gzip.open inside the handlelimiter module are replaced by counting wrappers around '
         'the real functions. Model: path -> concatenated payloads of the writes that returned. After the final close() '
@@ -105,8 +106,11 @@ def history_strategy(max_targets):
             plan['transient'] = draw(st.lists(st.integers(0, n), min_size=1, max_size=6, unique=True))
         if kind in ('permanent',):
             plan['permanent'] = draw(st.integers(0, nt - 1))
+        # files of an earlier run already present at some target paths; the spelling of the output directory in the paths
+        stale = draw(st.lists(st.integers(0, nt - 1), max_size=4, unique=True)) if draw(st.booleans()) else []
         return {'ops': ops, 'gz': draw(st.booleans()), 'maxHandles': draw(st.integers(1, 40)),
-                'pruneEvery': draw(st.integers(1, 50)), 'plan': plan, 'kind': kind}
+                'pruneEvery': draw(st.integers(1, 50)), 'plan': plan, 'kind': kind, 'stale': stale,
+                'sep': draw(st.sampled_from(['/', '/', '//', '/./', '/sub/../']))}
     return case()
 
 
@@ -129,10 +133,18 @@ def eval_limiter(case, through_fastq=False):
     plan = dict(case['plan'])
     gz = case['gz'] or through_fastq
 
+    sep = case.get('sep', '/')
+    if 'sub' in sep:
+        os.makedirs(os.path.join(d, 'sub'))
+
     def tpath(t, mate=None):
         if through_fastq:
-            return os.path.join(d, 'lib.%d.MXS.%s.fastq.gz' % (t, mate))
-        return os.path.join(d, 'cell%d.%s' % (t, 'gz' if gz else 'txt'))
+            return d + sep + 'lib.%d.MXS.%s.fastq.gz' % (t, mate)
+        return d + sep + 'cell%d.%s' % (t, 'gz' if gz else 'txt')
+    for t in case.get('stale', []):
+        for mate in (('R1', 'R2') if through_fastq else (None,)):
+            with (gzip.open(tpath(t, mate), 'wt') if gz else builtins.open(tpath(t, mate), 'w')) as f:
+                f.write('@STALE record of an earlier run\n')
     if plan.get('permanent') is not None:
         plan['permanent'] = os.path.basename(tpath(plan['permanent'], 'R1'))
     faults = Faults(plan)
@@ -151,7 +163,7 @@ def eval_limiter(case, through_fastq=False):
     try:
         if through_fastq:
             from singlecellmultiomics.fastqProcessing.fastqHandle import FastqHandle
-            w = FastqHandle(os.path.join(d, 'lib'), pairedEnd=True, single_cell=True, maxHandles=case['maxHandles'])
+            w = FastqHandle(d + sep + 'lib', pairedEnd=True, single_cell=True, maxHandles=case['maxHandles'])
             w.handles.pruneEvery = case['pruneEvery']
             limiter = w.handles
         else:
@@ -230,6 +242,8 @@ def eval_limiter(case, through_fastq=False):
                     kind = 'earlier-records-lost (truncated on reopen)'
                 elif content.startswith(got):
                     kind = 'later-records-lost'
+                elif 'STALE' in got:
+                    kind = 'content-of-an-earlier-run-kept'
                 elif sorted(got) == sorted(content):
                     kind = 'records-reordered'
                 else:
@@ -253,6 +267,10 @@ def eval_limiter(case, through_fastq=False):
     out.violations = list(seen.items())
     out.nontrivial = fault_seen_2live and reopen_after_fault
     out.label('faults=%s' % case['kind'])
+    if case.get('stale'):
+        out.label('stale files present')
+    if sep != '/':
+        out.label('non-normalised path spelling')
     if fault_seen_2live:
         out.label('fault with >=2 live handles')
     return out
